@@ -1,3 +1,6 @@
 package main
 
-func emitAll(repo string) {}
+func emitAll(repo string) {
+	emitGenState(repo) // genstate.go: genStateFields, genStateWrites (C08)
+	emitMapSites(repo) // mapsites.go: mapRangeSites (C07)
+}
